@@ -153,7 +153,7 @@ func VerifC05_csvlite_two_files() {
 		r, err := NewRecordReaderCSVLite(o, rpb)
 		verifAssert(err == nil, "C05/reader-created")
 		return r
-	}, c05Len(4), c05Len(4), "\n,")
+	}, c05Len(4), 4, "\n,") // thorough: 5 + 4 bytes (5 + 5 exhausted the path budget)
 }
 
 //verif:opts engine-only maxpaths=60000
